@@ -87,6 +87,7 @@ func c02Sequence(c *Ctx, kind string, auto bool, u c02Universe, length int) {
 	}
 	defer inst.Close()
 	r := newRunner(c, inst, auto, false, false)
+	r.EnableFsTrack()
 	buckets := u.buckets
 	if inst.IsSingle() {
 		buckets = []string{impl.SingleBucketName}
@@ -212,6 +213,7 @@ func c02FillAndEmpty(c *Ctx, kind string, auto bool, u c02Universe) {
 	}
 	defer inst.Close()
 	r := newRunner(c, inst, auto, false, false)
+	r.EnableFsTrack()
 	bucket := "bk1"
 	if inst.IsSingle() {
 		bucket = impl.SingleBucketName
